@@ -144,6 +144,8 @@ def _run(parser, cache, steps, mutate, shadow_step=-1):
                 out.append(('ok', repr(tree)))
         except Exception as e:
             out.append(('err', type(e).__name__, str(e)))
+            if mutate:
+                e.args = ('host note: ' + str(e),)          # a host that decorates the errors it catches
     return out
 
 
